@@ -27,6 +27,8 @@ def show_ops(ops):
             out.append(f"SLOW(seg {o[1]},t{o[2]},.{o[3]})")
         elif o[0] == "NOW":
             out.append(f"NOW({o[1]})")
+        elif o[0] == "CLOCKMS":
+            out.append(f"CLOCKMS({o[1]})")
         elif o[0] == "SLEEP":
             out.append(f"SLEEP({o[1]})")
         elif o[0] == "HIDE":
